@@ -202,7 +202,7 @@ class TruncationMonitor(Monitor):
         if not all(np.all(np.isfinite(a)) for a in full):
             self.ctx.skip('nonfinite-result'); return
         f = getattr(ev.owner, ev.name)
-        orders = range(1, D) if self.all_orders else sorted({1, D - 1, 1 + (D * 7919) % (D - 1)})
+        orders = range(1, D) if (self.all_orders or D <= 6) else sorted({1, D - 1, 1 + (D * 7919) % (D - 1)})
         for Dp in orders:
             args, kwargs = ev.rebuild(lambda c: c[:Dp].copy())
             try:
